@@ -115,7 +115,54 @@ func checkErrDrop(r *Run, p *Prog, rule string, scope func(*FuncNode) bool, min 
 			r.Ob(rule, key, s.pos, false, s.how+": a failure of this step is invisible to the caller")
 		}
 	}
-	r.Ob(rule, "every other call in scope binds and uses its error", "", true, fmt.Sprintf("%d call statements examined", total))
+	// E11b: an error replaced inside its own non-nil branch. "if err != nil { err = f() }"
+	// with an f that does not take err loses the failure: the caller sees f's result.
+	nBranches := 0
+	for _, fn := range p.Funcs {
+		if fn.Body == nil || !scope(fn) {
+			continue
+		}
+		inspectNoLit(fn.Body, func(x ast.Node) bool {
+			ifs, ok := x.(*ast.IfStmt)
+			if !ok {
+				return true
+			}
+			o, trueMeansNil, isCmp := nilCompare(fn, ifs.Cond)
+			if !isCmp || trueMeansNil || !isErrorType(o.Type()) {
+				return true
+			}
+			nBranches++
+			for _, st := range ifs.Body.List {
+				as, ok := st.(*ast.AssignStmt)
+				if !ok {
+					continue
+				}
+				for i, l := range as.Lhs {
+					if objOf(fn, l) != o || as.Tok.String() != "=" {
+						continue
+					}
+					var rhs ast.Expr
+					if len(as.Lhs) == len(as.Rhs) {
+						rhs = as.Rhs[i]
+					} else if len(as.Rhs) == 1 {
+						rhs = as.Rhs[0]
+					}
+					if rhs == nil || exprMentions(fn, rhs, o) || isNilIdent(fn, rhs) {
+						continue
+					}
+					key := "error replaced in its own failure branch: " + fn.Name + " (" + o.Name() + " = " + types.ExprString(rhs) + ")"
+					if reason, ok := errDropAllowed[key]; ok {
+						r.ObTrivial(rule, key, posOf(p, as), true, "tabled: "+reason)
+					} else {
+						r.Ob(rule, key, posOf(p, as), false, "the failure that took this branch is overwritten by the result of "+types.ExprString(rhs)+" (usually nil): the caller is told the step succeeded")
+					}
+				}
+			}
+			return true
+		})
+	}
+	r.Stats["errdrop_branches_"+rule] = nBranches
+	r.Ob(rule, "every other call in scope binds and uses its error", "", true, fmt.Sprintf("%d call statements and %d failure branches examined", total, nBranches))
 	r.Stats["errdrop_calls_"+rule] = total
 	if total < min {
 		r.Undecide("%s: only %d call statements examined (expected >= %d)", rule, total, min)
